@@ -282,6 +282,60 @@ pub fn lang_products() -> Vec<(String, String, String)> {
 #[cfg(not(all(feature = "likely", unic_locale_verif)))]
 pub fn lang_products() -> Vec<(String, String, String)> { vec![] }
 
+/// An untrusted re-reading of the six likely-subtags tables (through the verification hook), used ONLY to select which of
+/// the millions of pair products are worth sending to the oracle: a pair on which the library's `maximize` deviates from
+/// this plain lookup order (language-region, language-script, language; script-region, script; region).
+#[cfg(all(feature = "likely", unic_locale_verif))]
+pub struct Screen {
+    lr: std::collections::HashMap<(u64, u32), (Option<u64>, Option<u32>, Option<u32>)>,
+    ls: std::collections::HashMap<(u64, u32), (Option<u64>, Option<u32>, Option<u32>)>,
+    lo: std::collections::HashMap<u64, (Option<u64>, Option<u32>, Option<u32>)>,
+    sr: std::collections::HashMap<(u32, u32), (Option<u64>, Option<u32>, Option<u32>)>,
+    so: std::collections::HashMap<u32, (Option<u64>, Option<u32>, Option<u32>)>,
+    ro: std::collections::HashMap<u32, (Option<u64>, Option<u32>, Option<u32>)>,
+}
+#[cfg(all(feature = "likely", unic_locale_verif))]
+impl Screen {
+    pub fn new() -> Self {
+        use unic_langid_impl::likelysubtags::verif_tables as t;
+        Screen {
+            lr: t::LANG_REGION.iter().map(|(a, b, v)| ((*a, *b), *v)).collect(),
+            ls: t::LANG_SCRIPT.iter().map(|(a, b, v)| ((*a, *b), *v)).collect(),
+            lo: t::LANG_ONLY.iter().map(|(a, v)| (*a, *v)).collect(),
+            sr: t::SCRIPT_REGION.iter().map(|(a, b, v)| ((*a, *b), *v)).collect(),
+            so: t::SCRIPT_ONLY.iter().map(|(a, v)| (*a, *v)).collect(),
+            ro: t::REGION_ONLY.iter().map(|(a, v)| (*a, *v)).collect(),
+        }
+    }
+    /// does the library's maximize answer something else than the plain table reading?
+    pub fn deviates(&self, l: &[u8], s: &[u8], r: &[u8]) -> bool {
+        let (la, sc, rg) = match parse3(l, s, r) { Some(t) => t, None => return false };
+        let got = unic_langid_impl::likelysubtags::maximize(la, sc, rg);
+        let lraw: Option<u64> = la.into();
+        let sraw: Option<u32> = sc.map(|x| x.into());
+        let rraw: Option<u32> = rg.map(|x| x.into());
+        let fill = |v: &(Option<u64>, Option<u32>, Option<u32>), keep_s: bool, keep_r: bool| -> (Option<u64>, Option<u32>, Option<u32>) {
+            (lraw.or(v.0), if keep_s { sraw.or(v.1) } else { v.1 }, if keep_r { rraw.or(v.2) } else { v.2 })
+        };
+        let want: Option<(Option<u64>, Option<u32>, Option<u32>)> =
+            if lraw.is_some() && sraw.is_some() && rraw.is_some() { None }
+            else if let Some(lk) = lraw {
+                if let Some(v) = rraw.and_then(|rk| self.lr.get(&(lk, rk))) { Some(fill(v, false, false)) }
+                else if let Some(v) = sraw.and_then(|sk| self.ls.get(&(lk, sk))) { Some(fill(v, false, false)) }
+                else { self.lo.get(&lk).map(|v| fill(v, true, true)) }
+            } else if let Some(sk) = sraw {
+                if let Some(v) = rraw.and_then(|rk| self.sr.get(&(sk, rk))) { Some(fill(v, false, false)) }
+                else { self.so.get(&sk).map(|v| fill(v, false, true)) }
+            } else if let Some(rk) = rraw { self.ro.get(&rk).map(|v| fill(v, false, false)) } else { None };
+        let got_raw = got.map(|(a, b, c)| { let a: Option<u64> = a.into(); (a, b.map(|x| { let y: u32 = x.into(); y }), c.map(|x| { let y: u32 = x.into(); y })) });
+        got_raw != want
+    }
+}
+#[cfg(not(all(feature = "likely", unic_locale_verif)))]
+pub struct Screen;
+#[cfg(not(all(feature = "likely", unic_locale_verif)))]
+impl Screen { pub fn new() -> Self { Screen } pub fn deviates(&self, _: &[u8], _: &[u8], _: &[u8]) -> bool { false } }
+
 fn locale_dirs() -> Vec<String> {
     let mut v = vec![];
     if let Ok(rd) = std::fs::read_dir("/repo/unic-langid-impl/data/cldr-misc-full/main") {
@@ -472,6 +526,25 @@ pub fn run(out: &mut Out, tier: &str, rng: &mut Rng) {
             out.case("maximize", &[a, b, c], || maximize(a, b, c));
             out.case("minimize", &[a, b, c], || minimize(a, b, c));
         } } }
+        out.comment("EVERY pair over the subtag universe (language x script, language x region, script x region), SCREENED: the answers are first compared with a plain re-reading of the six tables inside the harness (untrusted, selects cases only); every deviation and every 97th pair goes to the oracle");
+        {
+            let scr = Screen::new();
+            let mut k = 0usize;
+            let mut shown = 0usize;
+            let mut visit = |out: &mut Out, a: &str, b: &str, c: &str| {
+                k += 1;
+                let (ab, bb, cb) = (a.as_bytes(), b.as_bytes(), c.as_bytes());
+                let dev = match gen_call(|| scr.deviates(ab, bb, cb)) { Some(d) => d, None => true };
+                if (dev && shown < 400) || k % 97 == 0 {
+                    if dev { shown += 1; }
+                    out.case("maximize", &[ab, bb, cb], || maximize(ab, bb, cb));
+                    out.case("minimize", &[ab, bb, cb], || minimize(ab, bb, cb));
+                }
+            };
+            for a in ls.iter() { for b in ss.iter() { visit(out, a, b, ""); } }
+            for a in ls.iter() { for c in rs.iter() { visit(out, a, "", c); } }
+            for b in ss.iter() { for c in rs.iter() { visit(out, "", b, c); } }
+        }
         out.comment("random triples over the CLDR universe + unknowns");
         let n = if thorough { 500_000 } else { 30_000 };
         for _ in 0..n {
